@@ -271,7 +271,7 @@ def build_ann(ctx: wire.Ctx, a: dict, rng: random.Random) -> Any:
                 specs.append((n, an))
             else:
                 dv = wire.mk_value(ctx, d)
-                if isinstance(dv, (list, dict, set)):
+                if isinstance(dv, (list, dict, set)) or cid % 2 == 1:     # odd class ids: every default through a factory
                     specs.append((n, an, dataclasses.field(default_factory=lambda d=d: wire.mk_value(ctx, d))))
                 else:
                     specs.append((n, an, dataclasses.field(default=dv)))
@@ -314,6 +314,7 @@ def strip_priv(a: Any) -> Any:
 # the exact-type reading, independently of the library and of the model
 
 
+DICT_FORM = [False]       # completeness check: a dataclass / NamedTuple may be given as a dict of its fields
 LENIENT_TD = [False]      # strictness check: undeclared keys of a TypedDict input are dropped, not a coercion
 
 
@@ -354,6 +355,18 @@ def has_type(ctx: wire.Ctx, a: dict, x: Any, trust: bool = False) -> bool:
         return type(x) is ctx.cls_by_id.get(a["cls"]["id"])
     cls = ctx.cls_by_id.get(a["cls"]["id"])
     if k in ("dataclass", "namedtuple"):
+        if DICT_FORM[0] and type(x) is dict:
+            # the dict form of a record: declared keys only, each of its annotated type; a key may be left out
+            # exactly when the class gives it a default ("requiredness is derived from the class itself")
+            if any(kk not in a["names"] for kk in x):
+                return False
+            for n, an, d in zip(a["names"], a["anns"], a["dflts"]):
+                if n in x:
+                    if not has_type(ctx, an, x[n], trust):
+                        return False
+                elif d is None:
+                    return False
+            return True
         if type(x) is not cls:
             return False
         for n, an, d in zip(a["names"], a["anns"], a["dflts"]):
@@ -584,6 +597,15 @@ def shard(seed: int, shard_i: int, n: int, opts: dict) -> dict:
                         pass
                 elif "invalid" in out and x_has and c["ann"]["a"] != "annotated" and not has_annotated(c["ann"]):
                     what = f"{mode}: a value of the annotated type was rejected ({out['invalid']['err']['e']})"
+                elif "invalid" in out and c["resolver"] != "signature" and not has_annotated(c["ann"]):
+                    DICT_FORM[0] = True
+                    try:
+                        x_dict_form = has_type(ctx, c["ann"], x)
+                    finally:
+                        DICT_FORM[0] = False
+                    if x_dict_form:
+                        what = (f"{mode}: a record given as a dict of its fields (every value of its annotated type, only "
+                                f"keys with a default left out) was rejected ({out['invalid']['err']['e']})")
                 elif "raised" in out:
                     what = f"{mode}: raised {out['raised']}"
                 if what:
